@@ -435,11 +435,16 @@ def add_special_methods(prog, rng, backend):
         if rng.random() < 0.6:
             sret = rng.choice([("unit",), ("unit",), ("result", ("unit",), ("unit",), "std"), ("opt", ("unit",), "std")])
             add(host, "setter = \"%s\"" % g, "store_" + g, rng.choice([("mut", None), ("ref", None)]), [("v", vty)], sret)
+            if rng.random() < 0.4:
+                host.methods[-1], host.methods[-2] = host.methods[-2], host.methods[-1]
         if sup.get("static_accessors") and rng.random() < 0.4:
             g2 = "sprop_" + pick()
             add(host, "getter = \"%s\"" % g2, "sfetch_" + g2, None, [], vty)
             if rng.random() < 0.5:
                 add(host, "setter = \"%s\"" % g2, "sstore_" + g2, None, [("v", vty)], rng.choice([("unit",), ("result", ("unit",), ("unit",), "std")]))
+                if rng.random() < 0.5:
+                    # the setter declared before its getter (backends that merge the two into one property meet them in either order)
+                    host.methods[-1], host.methods[-2] = host.methods[-2], host.methods[-1]
     if sup.get("constructors") and rng.random() < 0.4:
         # a constructor on the opaque itself, fallible where the backend can express that
         cret = ("obox", host.name, False)
